@@ -247,6 +247,27 @@ impl Elab {
         r
     }
 
+    /// Constant expression inside procedural code: local names are visible
+    /// (for `$size(local)`, `$bits(local)`, local parameters), their values are not.
+    pub(crate) fn const_i64_lc(&mut self, e: &Expr, sc: ScopeId, lc: &Locals) -> R<i64> {
+        let mut tmp = Locals {
+            vars: lc.vars.clone(),
+            blocks: lc.blocks.clone(),
+            in_func: lc.in_func.clone(),
+            consts: lc.consts.clone(),
+            ..Default::default()
+        };
+        let ee = self.expr(e, sc, &mut tmp)?;
+        let saved = self.m.const_only;
+        self.m.const_only = true;
+        let r = self.m.eval_self(&ee);
+        self.m.const_only = saved;
+        match r?.to_bigint().and_then(|i| i64::try_from(i).ok()) {
+            Some(i) => Ok(i),
+            None => fail("constant expression is unknown or too large"),
+        }
+    }
+
     pub(crate) fn const_i64(&mut self, e: &Expr, sc: ScopeId) -> R<i64> {
         let v = self.const_eval(e, sc)?;
         match v.to_bigint().and_then(|i| i64::try_from(i).ok()) {
